@@ -37,7 +37,8 @@ SIZES = {'cube12': (12, 12, 12, 12, 12), 'big': (12, 10, 11, 12, 10), '343': (3,
 
 def BOUNDS(tier):
     return {'axes': {k: [str(x) for x in v] for k, v in AXES.items()}, 'max_deviations': 3 if tier == 'quick' else 4,
-            'large_mode_grid': 'sizes (12,10[,11]) x {lap,cd,dd} x {gmres,bicgstab,direct} x prec x eps', 'thorough_extra': 'order 5, sizes up to 12, full product on a reduced grid'}
+            'large_mode_grid': 'sizes (12,10[,11]) x {lap,cd,dd} x {gmres,bicgstab,direct} x prec x eps', 'thorough_extra': 'order 5, sizes up to 12, full product on a reduced grid',
+            'second_call': 'every configuration with a user-supplied x0 (direct / gmres local solver): a second solve with another right-hand side and the same x0 object'}
 
 
 def _configs(maxdev, axes=AXES):
